@@ -975,12 +975,20 @@ def OP_RETURN(tape: Tape, stack: Stack, cache: dict) -> None:
     tape.pointer = len(tape.data)
     cache['returned'] = True
 
+def _flag_key(flag: bytes, table: dict) -> bytes|int:
+    """Integer flags 0-255 are named on the tape by their number."""
+    if flag not in table and len(flag) > 0:
+        number = int.from_bytes(flag, 'big')
+        if number < 256 and number in table:
+            return number
+    return flag
+
 def OP_SET_FLAG(tape: Tape, stack: Stack, cache: dict) -> None:
     """Read the next byte from the tape, interpreting as an unsigned int;
         read that many bytes from the tape as a flag; set that flag.
     """
     size = int.from_bytes(tape.read(1), 'big')
-    flag = tape.read(size)
+    flag = _flag_key(tape.read(size), flags)
     sert(flag in flags, 'OP_SET_FLAG unrecognized flag')
     tape.flags[flag] = flags[flag]
 
@@ -989,7 +997,7 @@ def OP_UNSET_FLAG(tape: Tape, stack: Stack, cache: dict) -> None:
         read that many bytes from the tape as a flag; unset that flag.
     """
     size = int.from_bytes(tape.read(1), 'big')
-    flag = tape.read(size)
+    flag = _flag_key(tape.read(size), tape.flags)
     if flag in tape.flags:
         del tape.flags[flag]
 
